@@ -190,6 +190,10 @@ def _discharge(crate, b, bb, e, explicit_tryfrom_targets, returns_some):
     for kf, frag, reason in TABLE:
         if kf in b.key and frag in txt:
             return "trusted", reason
+    um = b.unmodelled_iteration()
+    if um and mir.contains(e, lambda x: isinstance(x, tuple) and x[:1] == ("iv",)):
+        # the index is a counter of a walk over a split / chunked slice whose length this rule does not know
+        return "undecided", "`%s` is unwrapped; its index runs over %s, whose bounds are not modelled: not decided" % (txt[:90], ", ".join(um))
     return "unmatched", "`%s` is unwrapped but no dominating guard matches the callee's failure predicate" % txt[:120]
 
 
